@@ -356,10 +356,20 @@ def gen_cases(rng, tier):
 
     # ---- SmartRotation3D: several init calls on one object (state carried between calls), double only
     for i in range(2 * n):
-        lines = ['smart.new', 'smart.R'] if rng.chance(0.5) else ['smart.ctor ' + toks(euler(rng, 'd'), 'd')]
-        for _ in range(rng.int(1, 5)):
-            e = euler(rng, 'd') if rng.chance(0.7) else [rng.choice([0.0, PI / 2, -PI / 2, PI, 1.0]) for _ in range(3)]
-            lines += ['smart.init ' + toks(e, 'd')]
+        # both overload families (three scalars / one Eigen::Vector3d) are mixed on one object, and earlier angle triples are
+        # re-issued bit-identically after other calls (seeded change c10b: a "same argument as last time" shortcut in one overload
+        # that the other overload does not invalidate needs initv(v); init(w); initv(v))
+        first = euler(rng, 'd')
+        seen = [first]
+        lines = (['smart.new', 'smart.R'] if rng.chance(0.5)
+                 else ['%s %s' % (rng.choice(['smart.ctor', 'smart.ctorv']), toks(first, 'd'))])
+        for _ in range(rng.int(1, 6)):
+            if rng.chance(0.35):
+                e = rng.choice(seen)
+            else:
+                e = euler(rng, 'd') if rng.chance(0.7) else [rng.choice([0.0, PI / 2, -PI / 2, PI, 1.0]) for _ in range(3)]
+                seen.append(e)
+            lines += ['%s %s' % (rng.choice(['smart.init', 'smart.initv']), toks(e, 'd'))]
             if rng.chance(0.5):
                 lines += ['smart.R']
             if rng.chance(0.5):
@@ -508,7 +518,7 @@ def oracle(case, out, stats):
                     bad('rot2-roundtrip', 'angle -> rotation -> angle differs modulo 2*pi', scalar=sc)
                 count('checked_rot2_a_R_a')
 
-        elif op in ('eul.toR', 'smart.ctor', 'smart.init', 'smart.R'):
+        elif op in ('eul.toR', 'smart.ctor', 'smart.init', 'smart.ctorv', 'smart.initv', 'smart.R'):
             if op == 'smart.R':
                 if smart_last is None:
                     if outs != [1, 0, 0, 0, 1, 0, 0, 0, 1]:
